@@ -267,7 +267,7 @@ func valID(s string) uint64 {
 // (span, key) with `name` and `service.name` always present; tempo_traces_kv through the
 // materialized view's SELECT). Rows are stored in each table's ORDER BY key order, i.e. as one
 // merged part: that is the order a ClickHouse server scans them in.
-func load(tdb *reftraceql.DB, cluster bool) (*chsql.DB, error) {
+func load(tdb *reftraceql.DB, cluster bool, zoneS int64) (*chsql.DB, error) {
 	db := chsql.QrynSchema(cluster)
 	tt, gin, kv := db.Tables["tempo_traces"], db.Tables["tempo_traces_attrs_gin"], db.Tables["tempo_traces_kv"]
 	kvSeen := map[string]bool{}
@@ -276,7 +276,7 @@ func load(tdb *reftraceql.DB, cluster bool) (*chsql.DB, error) {
 		for _, sp := range tr.Spans {
 			sid := rawID(sp.SpanID)
 			tt.Rows = append(tt.Rows, []chsql.Value{"0", tid, sid, "", sp.Name, sp.TS, sp.Dur, sp.Service, int8(2), ""})
-			date := chsql.Date(floorDiv(sp.TS, 86400e9))
+			date := chsql.Date(floorDiv(sp.TS+zoneS*1e9, 86400e9))
 			kvs := [][2]string{{"name", sp.Name}, {"service.name", sp.Service}}
 			for _, a := range sp.Attrs {
 				kvs = append(kvs, [2]string{a.Key, a.Val})
@@ -400,6 +400,9 @@ type request struct {
 	Limit      int    `json:"limit"`
 	Complexity int64  `json:"complexity,omitempty"`
 	Cluster    bool   `json:"cluster,omitempty"`
+	// WriterZoneS: offset from UTC (seconds) of the zone the writer / the ClickHouse server computed the index
+	// tables' `date` column in (proto.ColDate.Append(time.Unix(ts,0)) and toDate() both take the local calendar day)
+	WriterZoneS int64 `json:"writer_zone_s,omitempty"`
 }
 
 func (r *rig) prepare(db *chsql.DB, rq *request) {
